@@ -609,7 +609,7 @@ theorem incentives_follow_queries {now : Int} {D : List Nat} {s t : Incentives.S
 `Drop` — identical reference stores — afterwards.) -/
 theorem incentives_run_after_import_partial {s t : Incentives.State} {now now' : Int} (h : Incentives.Reachable s)
     (hstarted : ∀ kv ∈ s.active, kv.1 ≤ now) (ht : Incentives.exportImport now s = some t) (hle : now ≤ now')
-    (thr : Incentives.Thr) (locks : List Incentives.Lock) (hok : Incentives.epoch s now' thr locks ≠ none)
+    (thr : Incentives.Quotes) (locks : List Incentives.Lock) (hok : Incentives.epoch s now' thr locks ≠ none)
     (ops : List Incentives.Op) (hav : ∀ o ∈ ops, o.avoids (Incentives.refsIds s.finished)) :
     Incentives.outcomes t (.epoch now' thr locks :: ops) = Incentives.outcomes s (.epoch now' thr locks :: ops) ∧
     Incentives.Drop (Incentives.refsIds s.finished) (Incentives.run s (.epoch now' thr locks :: ops))
@@ -621,8 +621,8 @@ theorem incentives_run_after_import_partial {s t : Incentives.State} {now now' :
 qualifying lock (F20: filled 1 of 2); gauge 2 (perpetual) is created with a start time in the past. -/
 def incHist : List Incentives.Op := [
   .create false "lp" 3600 [("uosmo", 1000)] 0 2,
-  .epoch 10 [("uosmo", 1)] [⟨1, 0, none, 3600, "lp", 100, false⟩],
-  .epoch 20 [("uosmo", 1)] [],
+  .epoch 10 [("uosmo", some 1)] [⟨1, 0, none, 3600, "lp", 100, false⟩],
+  .epoch 20 [("uosmo", some 1)] [],
   .create true "lp" 3600 [("uosmo", 700)] 5 1]
 
 def incState : Incentives.State := Incentives.run (Incentives.init ⟨[3600], ["lp"], []⟩ []) incHist
@@ -652,9 +652,9 @@ theorem incentives_import_changes_topup_outcome_witness :
 set_option synthInstance.maxSize 2048 in
 /-- the next epoch pays the same on both chains (instance of `incentives_run_after_import_partial`). -/
 example : (Incentives.exportImport 30 incState).map (fun t =>
-      (Incentives.epoch t 40 [("uosmo", 1)] [⟨1, 0, none, 3600, "lp", 100, false⟩]).map (·.2)) =
-    some ((Incentives.epoch incState 40 [("uosmo", 1)] [⟨1, 0, none, 3600, "lp", 100, false⟩]).map (·.2)) ∧
-    (Incentives.epoch incState 40 [("uosmo", 1)] [⟨1, 0, none, 3600, "lp", 100, false⟩]).map (fun r => Incentives.received r.2) =
+      (Incentives.epoch t 40 [("uosmo", some 1)] [⟨1, 0, none, 3600, "lp", 100, false⟩]).map (·.2)) =
+    some ((Incentives.epoch incState 40 [("uosmo", some 1)] [⟨1, 0, none, 3600, "lp", 100, false⟩]).map (·.2)) ∧
+    (Incentives.epoch incState 40 [("uosmo", some 1)] [⟨1, 0, none, 3600, "lp", 100, false⟩]).map (fun r => Incentives.received r.2) =
       some [(0, [("uosmo", 700)])] := by
   decide +kernel
 
